@@ -79,6 +79,7 @@ def gen_program(seed, i):
     elif fam == 1:
         g = Gen(rng, rt_safe=True, features=('tempo', 'cond', 'flow', 'send', 'rand', 'call'))
         g.single_clock = rng.choice([-1, 0, 0])
+        g.cond_heavy = rng.random() < 0.5
     else:
         g = Gen(rng, rt_safe=True, features=('pr', 'send', 'rand'))
         g.single_clock = rng.choice([-1, 0])
@@ -88,6 +89,23 @@ def gen_program(seed, i):
     g.dyadic = True
     g.tempos = [1, 2, 4, 8]
     prog = g.program()
+    if fam == 1 and rng.random() < 0.5:
+        # several waiters released by one signal: their wake-up order (the order
+        # in which they began to wait) is part of the program's meaning
+        c = prog['nconds']
+        prog['nconds'] = c + 1
+        ck = g.single_clock
+        nid = g.next_id
+        for k in range(rng.randint(2, 7)):
+            prog['routines'].append(
+                {'id': nid, 'clock': ck, 'free': False, 'seed': rng.randrange(1 << 30),
+                 'body': [['y', rng.choice([0, 1 / 1024, 2 / 1024])], ['wait', c],
+                          ['send', rng.choice([0, 0.2]), nid * 1000],
+                          ['rand', 'rand', 100, None], ['y', 1 / 1024]]})
+            nid += 1
+        prog['routines'].append(
+            {'id': nid, 'clock': ck, 'free': True, 'seed': None,
+             'body': [['y', 8 / 1024], ['sig', c]]})
     prog['family'] = ['multi-clock', 'single-clock-tempo-cond', 'single-clock-pause-resume'][fam]
     return prog
 
@@ -114,6 +132,14 @@ def normalize(run):
         elif k in ('tempo',):
             per.setdefault(e[1], []).append(['tempo', e[2], e[3], e[4]])
     return {str(k): v for k, v in per.items()}
+
+
+def global_order(run):
+    """Execution order of all logged events (routine id, kind): within one
+    clock thread / in NRT it is fully determined by the program."""
+    return [[e[1] if not isinstance(e[1], str) else -1, e[0]] for e in run.log
+            if e[0] in ('res', 'send', 'msg', 'rand', 'sig', 'fset', 'end', 'tempo',
+                        'pause', 'resume', 'stop')]
 
 
 # ---------------------------------------------------------------------------
@@ -143,7 +169,7 @@ def run_nrt(spec, acc):
                 if isinstance(m, list) and m and m[0] == '/vf':
                     sends.append([m[1] % 100000, b[0]])
         out[str(i)] = {'log': normalize(r), 'sends': sorted(sends),
-                       'raw_sha': hashlib.sha256(raw).hexdigest(), 'raw_len': len(raw),
+                       'glog': global_order(r), 'raw_sha': hashlib.sha256(raw).hexdigest(), 'raw_len': len(raw),
                        'errors': [e[:2] for e in r.errors]}
         acc.case(h64(json.dumps(prog, sort_keys=True)), nontrivial=False)
         acc.count('nrt_runs')
@@ -231,7 +257,7 @@ def run_rt(spec, acc):
                     sends.append([sid, None if tt is None else
                                   ('imm' if tt == 1 else (tt - off) / 2.0 ** 32)])
                 out[str(i)] = {'log': normalize(r), 'sends': sorted(sends, key=lambda x: x[0]),
-                               'done': r.done, 'errors': [e[:2] for e in r.errors],
+                               'glog': global_order(r), 'done': r.done, 'errors': [e[:2] for e in r.errors],
                                'max_late': r.max_late}
                 acc.count('rt_runs')
                 acc.maxi('max_rt_lateness_s', r.max_late)
@@ -391,6 +417,14 @@ def finalize(results, tier, seed):
                 elif a['log'] != b['log']:
                     viol(f'C10/nrt-log-differs-between-fresh-runs/{fam}',
                          {'case': int(i), 'program': prog})
+                elif a['glog'] != b['glog']:
+                    k = next((j for j, (x, y) in enumerate(zip(a['glog'], b['glog']))
+                              if x != y), min(len(a['glog']), len(b['glog'])))
+                    viol(f'C10/nrt-execution-order-differs-between-fresh-runs/{fam}',
+                         {'case': int(i), 'program': prog, 'at': k,
+                          'a': a['glog'][max(0, k - 3):k + 4],
+                          'b': b['glog'][max(0, k - 3):k + 4]})
+                cnt('global_order_entries_compared', len(a['glog']))
             # --- RT vs NRT ---
             if R is None or i not in R:
                 continue
@@ -424,6 +458,17 @@ def finalize(results, tier, seed):
                      {'case': int(i), 'program': prog, 'why': bad[1],
                       'nrt': bad[2], 'rt': bad[3], 'rt_errors': r.get('errors'),
                       'nrt_errors': a.get('errors')})
+                continue
+            # single-clock programs run on one thread: execution order is determined
+            if fam != 'multi-clock' and prog['routines'] and all(
+                    R['clock'] == -1 for R in prog['routines']) \
+                    and a['glog'] != r.get('glog'):
+                g2 = r.get('glog') or []
+                k = next((j for j, (x, y) in enumerate(zip(a['glog'], g2)) if x != y),
+                         min(len(a['glog']), len(g2)))
+                viol(f'C10/rt-nrt-execution-order-differs/{fam}',
+                     {'case': int(i), 'program': prog, 'at': k,
+                      'nrt': a['glog'][max(0, k - 3):k + 4], 'rt': g2[max(0, k - 3):k + 4]})
                 continue
             # sends: same ids; NRT time == RT relative timetag (or immediate)
             sa = {s[0]: s[1] for s in a['sends']}
